@@ -326,7 +326,9 @@ func c15Scenario(c *vk.Ctx, r *rand.Rand, env *relayEnv, keys []KeySpec, sc stri
 		}
 		defer cl2.Conn.Close()
 		cl2.WriteRaw(wire)
-		cl2.Conn.CloseWrite()
+		if r.Intn(2) == 0 {
+			cl2.Conn.CloseWrite()
+		} // else: held open - the refused replay is drained until the deadline, while other connections are classified
 		watchClose(cl2, time.Now().Add(relayTimeout+c06B))
 		cl = cl2
 		ex.statuses, ex.probe = []string{"ERR_REPLAY_CLIENT"}, true
@@ -360,7 +362,9 @@ func c15Scenario(c *vk.Ctx, r *rand.Rand, env *relayEnv, keys []KeySpec, sc stri
 		}
 		defer cl2.Conn.Close()
 		cl2.WriteRaw(raw)
-		cl2.Conn.CloseWrite()
+		if r.Intn(2) == 0 {
+			cl2.Conn.CloseWrite()
+		}
 		watchClose(cl2, time.Now().Add(relayTimeout+c06B))
 		cl = cl2
 		if r.Intn(2) == 0 {
